@@ -50,6 +50,8 @@ def learners(seed):
         ("MixtureModelClassifier[similarities]", lambda: MixtureModelClassifier(mixture_model=GaussianMixture(n_components=2, random_state=seed), weight_mode="similarities",
                                                                                  classes=cl, class_prior=[1.0, 2.0], random_state=seed), "clf", ("class_prior", 0.5)),
         ("NICKernelRegressor[gamma=0.7]", lambda: NICKernelRegressor(metric_dict={"gamma": 0.7}, random_state=seed), "reg", ("kappa_0", 1.0)),
+        ("SlidingWindowClassifier[window 8 -> 3]", lambda: SlidingWindowClassifier(ParzenWindowClassifier(classes=cl, random_state=seed), classes=cl, window_size=8, random_state=seed), "clf", ("window_size", 3)),
+        ("SlidingWindowClassifier[only_labeled, window 3 -> 7]", lambda: SlidingWindowClassifier(ParzenWindowClassifier(classes=cl, random_state=seed), classes=cl, window_size=3, only_labeled=True, random_state=seed), "clf", ("window_size", 7)),
         ("NICKernelRegressor[polynomial]", lambda: NICKernelRegressor(metric="polynomial", metric_dict={"degree": 2, "coef0": 1.0}, random_state=seed), "reg", ("kappa_0", 1.0)),
         ("NadarayaWatsonRegressor[laplacian]", lambda: NadarayaWatsonRegressor(metric="laplacian", metric_dict={}, random_state=seed), "reg", ("metric", "laplacian")),
         ("ParzenWindowClassifier[polynomial]", lambda: ParzenWindowClassifier(classes=cl, metric="polynomial", metric_dict={"degree": 2}, random_state=seed), "clf", ("n_neighbors", 3)),
